@@ -454,11 +454,13 @@ impl Sink<Msg> for VSink {
 
     fn poll_flush(self: Pin<&mut Self>, _cx: &mut Context<'_>) -> Poll<Result<(), String>> {
         let mut sh = self.sh.lock().unwrap();
-        if sh.gone[1 - self.p] {
-            return Poll::Ready(Err("receiver dropped".into()));
-        }
+        // a flush that is already complete succeeds even if the receiver has gone since
+        // (specification: SinkFail needs ~Flushed or a new send)
         if sh.flushed(self.p) {
-            Poll::Ready(Ok(()))
+            return Poll::Ready(Ok(()));
+        }
+        if sh.gone[1 - self.p] {
+            Poll::Ready(Err("receiver dropped".into()))
         } else {
             sh.blocked_send[self.p] = true;
             Poll::Pending
@@ -1082,7 +1084,7 @@ async fn replay_one(ctx: &ReplayCtx, beh: &Value, out: &mut Outcome) -> ReplayEn
         let produced = evs.iter().any(|e| matches!(e["ev"].as_str(), Some("Send" | "Recv" | "Eos" | "ReadHeights" | "ReadSize" | "ReadEntries")));
         if kind_of(act).is_some() && !produced && !end.finished {
             let attempted = run.sh.lock().unwrap().attempted[p];
-            if act == "SyncRecv" && matches!(attempted, Some(Kind::Store) | Some(Kind::Send)) {
+            if matches!(act, "SyncRecv" | "SyncRecvClosed") && matches!(attempted, Some(Kind::Store) | Some(Kind::Send)) {
                 out.count("abandoned_at_select");
                 return ReplayEnd::AbandonedAtSelect;
             }
